@@ -332,3 +332,154 @@ def c09(env, thorough):
         'one traced history init, add, update, set-admin(true), set-admin(false), remove, add(admin), update(other default), set-admin(false) of the last admin, remove without any harness sync; at every mutating system call after each acknowledgement: every power-loss image (every subset of pending directory operations x every prefix of pending writes); '
         'each image must show the effect of every acknowledged operation (observed through a fresh store.Dir); distinct = distinct (acknowledged prefix, phase, observed abstract state)',
         ['persistence model as in C08; operations in progress may show either their old or new state (their intermediate states are judged by C08)'])
+
+
+# =============================================================================================
+# C15
+# =============================================================================================
+
+ERRNOS = {
+    'openat': ['ENOSPC', 'EIO', 'EACCES', 'EMFILE'],
+    'mkdirat': ['ENOSPC', 'EIO', 'EACCES'],
+    'write': ['ENOSPC', 'EIO'],
+    'read': ['EIO'],
+    'copy_file_range': ['ENOSPC', 'EIO'],
+    'fsync': ['ENOSPC', 'EIO'],
+    'renameat': ['ENOSPC', 'EIO', 'EACCES'],
+    'unlinkat': ['EIO', 'EACCES'],
+    'newfstatat': ['EIO', 'EACCES'],
+    'close': ['EIO'],
+    'getdents64': ['EIO'],
+}
+
+
+def copy_tree(src, dst):
+    shutil.rmtree(dst, ignore_errors=True)
+    shutil.copytree(src, dst, symlinks=True)
+
+
+def c15_faults(env, thorough):
+    tmpl = os.path.join(env.work, 'c15', 'tmpl')
+    build_tree(env, tmpl, STD_SETUP + [{'op': 'update', 'user': 'b', 'pw': 'bpw'}], {})
+    append_aux(tmpl, 'b.user', b'aux line 1\naux line 2\n')
+    ops = [
+        ('init', None, {'op': 'init', 'user': 'root', 'pw': 'rootpw'}),
+        ('add', tmpl, {'op': 'add', 'user': 'a', 'pw': 'newpw'}),
+        ('update', tmpl, {'op': 'update', 'user': 'b', 'pw': 'newpw'}),
+        ('setadmin', tmpl, {'op': 'setadmin', 'user': 'b', 'admin': True}),
+        ('remove', tmpl, {'op': 'remove', 'user': 'b'}),
+    ]
+    base = os.path.join(env.work, 'c15', 'store')
+    nruns = 0
+    for opname, src, step in ops:
+        def fresh():
+            if src:
+                copy_tree(src, base)
+            else:
+                shutil.rmtree(base, ignore_errors=True)
+                os.makedirs(base)
+        fresh()
+        pre = user_files(read_tree(base))
+        run0 = engine.run_driver(env.drv, env.work, {'base': base, 'snap': True, 'steps': [step]}, tag='c15b')
+        if run0.report is None or not run0.report[0]['ok']:
+            raise TraceError('C15 baseline %s failed: %s' % (opname, run0.report))
+        mk, tid = engine.marks(run0.calls)
+        b = [i for i, t in mk if t == 'B:0'][0]
+        e = [i for i, t in mk if t.startswith('E:0')][0]
+        # global occurrence index (over ALL threads, as strace counts) of every call in the window
+        count = {}
+        window = []
+        renamed = False
+        for i, c in enumerate(run0.calls):
+            count[c.name] = count.get(c.name, 0) + 1
+            if b < i < e and c.tid == tid and c.name in ERRNOS:
+                paths = [strace.unq(a) for a in c.args if a.startswith('"')]
+                if c.name == 'close' or c.name in ('write', 'read', 'fsync', 'copy_file_range', 'getdents64'):
+                    paths = []
+                inwin = sum(1 for w in window if w[0] == c.name)
+                window.append((c.name, count[c.name], inwin, renamed, c.ret is not None and c.ret < 0))
+                if c.name == 'renameat' and c.ret == 0:
+                    renamed = True
+        env.samples.append({'op': opname, 'syscalls_in_window': [w[0] for w in window]})
+        for name, nth, inwin, after_rename, failed_anyway in window:
+            for errno in ERRNOS[name]:
+                fresh()
+                run = engine.run_driver(env.drv, env.work, {'base': base, 'snap': True, 'steps': [step]}, tag='c15i',
+                                        inject='%s:error=%s:when=%d' % (name, errno, nth))
+                nruns += 1
+                env.cov['evaluations'] += 1
+                inj = [c for c in run.calls if c.injected]
+                mk2, tid2 = engine.marks(run.calls)
+                if len(inj) != 1 or run.report is None:
+                    raise TraceError('fault injection %s#%d %s into %s did not hit exactly one call (%d) / no report: %s' % (name, nth, errno, opname, len(inj), run.stderr[-300:]))
+                bi = [i for i, t in mk2 if t == 'B:0']
+                ei = [i for i, t in mk2 if t.startswith('E:0')]
+                pos = run.calls.index(inj[0])
+                if not bi or not ei or not (bi[0] < pos < ei[0]) or inj[0].tid != tid2:
+                    raise TraceError('injected fault landed outside the operation window (%s#%d into %s)' % (name, nth, opname))
+                rep = run.report[0]
+                after = user_files(engine.snap_to_tree(rep.get('snap') or {}))
+                changed = after != pre
+                where = 'after-rename' if after_rename else 'before-rename'
+                env.distinct.add((opname, name, errno, rep['ok'], changed))
+                if not rep['ok'] and changed:
+                    diff = sorted(set(after) ^ set(pre)) + [k for k in after if k in pre and after[k] != pre[k]]
+                    env.violation('failed-op-changed-store:%s:%s:%s' % (opname, where, name),
+                                  '%s reported failure (%s) after %s #%d of the operation failed with %s, but the store changed outside the work area: %s'
+                                  % (opname, rep.get('err'), name, inwin + 1, errno, diff),
+                                  {'op': step, 'inject': '%s:error=%s:when=%d' % (name, errno, nth), 'occurrence_in_op': inwin + 1, 'diff': diff})
+                if rep.get('err', '').startswith('PANIC'):
+                    env.violation('panic-under-fault:%s:%s' % (opname, name), '%s panicked when %s failed with %s: %s' % (opname, name, errno, rep['err']),
+                                  {'op': step, 'inject': '%s:error=%s:when=%d' % (name, errno, nth)})
+    env.cov['fault_runs'] = nruns
+    return env.evidence(
+        'for each of init, add, update, set-admin, remove: EVERY occurrence of every file-system system call inside the operation (openat, mkdirat, write, read, copy_file_range, fsync, renameat, unlinkat, newfstatat, close, getdents64) x each applicable errno of {ENOSPC, EIO, EACCES, EMFILE}, one fault per run (strace inject, position verified to lie inside the operation window); '
+        'oracle: an operation that reports failure leaves everything outside the work area byte-identical; distinct = distinct (operation, syscall, errno, reported result, changed?)',
+        ['single fault per run', 'fault positions are computed from a baseline trace of the identical deterministic driver and verified after each run'])
+
+
+def c15_readonly(env, thorough):
+    tmpl = os.path.join(env.work, 'c15r', 'store')
+    build_tree(env, tmpl, STD_SETUP, {'weird.user': b'argon2id:1:99:AAAA:AAAA\n'})
+    steps = [
+        {'op': 'auth', 'user': 'b', 'pw': 'bpw'}, {'op': 'auth', 'user': 'b', 'pw': 'wrong'}, {'op': 'auth', 'user': 'nobody', 'pw': 'x'},
+        {'op': 'auth', 'user': 'weird', 'pw': 'x'}, {'op': 'auth', 'user': 'c', 'pw': 'cpw'},
+        {'op': 'exists', 'user': 'b'}, {'op': 'exists', 'user': 'nobody'}, {'op': 'list'}, {'op': 'listfull'}, {'op': 'check'},
+        # semantic failures must change nothing either
+        {'op': 'add', 'user': 'b', 'pw': 'x'}, {'op': 'add', 'user': '-bad', 'pw': 'x'}, {'op': 'update', 'user': 'nobody', 'pw': 'x'},
+        {'op': 'update', 'user': 'weird', 'pw': 'x'}, {'op': 'setadmin', 'user': 'nobody', 'admin': True}, {'op': 'setadmin', 'user': 'b', 'admin': False},
+        {'op': 'init', 'user': 'r2', 'pw': 'x'},
+    ]
+    pre = read_tree(tmpl)
+    fs = FS(tmpl)
+    muts = []
+
+    def on_access(op, phase, c, mut, desc, paths):
+        if phase != 'in':
+            return
+        flags = c.args[2] if c.name == 'openat' and len(c.args) > 2 else ''
+        if mut or ('O_CREAT' in flags or 'O_WRONLY' in flags or 'O_RDWR' in flags or 'O_TRUNC' in flags) and any(p and p.startswith(tmpl) for p in paths):
+            muts.append((op, c.name, desc or c.raw[:120]))
+    run = engine.run_driver(env.drv, env.work, {'base': tmpl, 'snap': True, 'steps': steps}, tag='c15r')
+    points, stats, acked = engine.replay(tmpl, fs, run, want_power=False, on_access=on_access)
+    env.cov['traces_validated_against_impl'] += stats['validated']
+    env.cov['evaluations'] += len(steps)
+    ro = 10
+    for op, name, desc in muts:
+        st = steps[op]
+        kind = 'read-only-call-mutates' if op < ro else 'failed-op-mutates'
+        # a semantically failing add/update/set-admin may not even attempt a mutation ... except the no-op set-admin
+        env.violation('%s:%s:%s' % (kind, st['op'], name), 'step %s issued a mutating system call: %s' % (st, desc.replace(tmpl + '/', '')), {'step': st, 'call': desc})
+    for r in run.report:
+        st = steps[r['i']]
+        after = engine.snap_to_tree(r.get('snap') or {})
+        if after != pre:
+            diff = sorted(set(after) ^ set(pre)) + [k for k in after if k in pre and after[k] != pre[k]]
+            env.violation('store-changed:%s' % st['op'], 'step %s (result ok=%s) changed the store: %s' % (st, r['ok'], diff), {'step': st})
+        if r['i'] >= ro and r['ok'] and not (st['op'] == 'setadmin' and st['user'] == 'b'):
+            env.violation('semantic-failure-succeeds:%s' % st['op'], 'step %s should fail but succeeded' % st, {'step': st})
+        env.distinct.add((st['op'], st.get('user'), r['ok'], r.get('res')))
+    env.samples.append({'readonly_steps': [s['op'] for s in steps[:ro]], 'failing_steps': [s['op'] + ':' + s['user'] for s in steps[ro:]]})
+    return env.evidence(
+        'one traced driver run: authenticate (right/wrong/missing user/unsupported record/other parameter set), exists, list, list-full, check, and semantically failing add/update/set-admin/init; every system call inside each step is replayed in the FS model: no mutation and no open for writing/creation under the store, snapshot identical after every step',
+        ['library level; the frontends only call authenticate (C04)'])
